@@ -201,6 +201,65 @@ func sargonEval(a []string) sargonInfo {
 		ps = strings.Join(l, ",")
 	}
 	out = append(out, "pins="+ps)
+	// eval.FindPins for the four (side, piece) pairs: sorted attacker/pinned/target
+	{
+		var groups []string
+		for _, g := range []struct {
+			n string
+			c board.Color
+			k board.Piece
+		}{{"wK", board.White, board.King}, {"wQ", board.White, board.Queen}, {"bK", board.Black, board.King}, {"bQ", board.Black, board.Queen}} {
+			fp := eval.FindPins(pos, g.c, g.k)
+			sort.Slice(fp, func(i, j int) bool {
+				a, b := fp[i], fp[j]
+				if a.Attacker != b.Attacker {
+					return a.Attacker < b.Attacker
+				}
+				if a.Pinned != b.Pinned {
+					return a.Pinned < b.Pinned
+				}
+				return a.Target < b.Target
+			})
+			t := "-"
+			if len(fp) > 0 {
+				var l []string
+				for _, e := range fp {
+					l = append(l, fmt.Sprintf("%d/%d/%d", int(e.Attacker), int(e.Pinned), int(e.Target)))
+				}
+				t = strings.Join(l, ",")
+			}
+			groups = append(groups, g.n+":"+t)
+		}
+		out = append(out, "fp="+strings.Join(groups, ";"))
+	}
+	// the squares heading the stacks of FindAttackers, sorted
+	{
+		var dirs []string
+		for sq := board.ZeroSquare; sq < board.NumSquares; sq++ {
+			one := func(c board.Color) string {
+				l := sargon.FindAttackers(pos, pins, sq, c)
+				if len(l) == 0 {
+					return "-"
+				}
+				var sqs []int
+				for _, a := range l {
+					sqs = append(sqs, int(a.Piece.Square))
+				}
+				sort.Ints(sqs)
+				var ks []string
+				for _, x := range sqs {
+					ks = append(ks, strconv.Itoa(x))
+				}
+				return strings.Join(ks, ".")
+			}
+			w, bl := one(board.White), one(board.Black)
+			if w == "-" && bl == "-" {
+				continue
+			}
+			dirs = append(dirs, fmt.Sprintf("%d:%s/%s", int(sq), w, bl))
+		}
+		out = append(out, "dir="+strings.Join(dirs, ","))
+	}
 	// attackers of every square
 	var atts []string
 	for sq := board.ZeroSquare; sq < board.NumSquares; sq++ {
@@ -475,7 +534,7 @@ func init() {
 		}
 		n := 80
 		if thorough {
-			n = 9000
+			n = 7000
 		}
 		for i := 0; i < n; i++ {
 			start, moves, b := randomLine(r, 16)
